@@ -414,12 +414,15 @@ fn check_point(cx: &mut Ctx, s: &dyn DynSampler, cached_spec: Option<f64>, ri: u
                 cx.viol("C10", format!("k+L^-1u [{}][{}] = {} differs from sqrt(v/2lambda) Q^-T q = {}", li, c, lhs, rhs), ri, x, json!({"cond": cond}));
             }
         } }
-        // (iii) L * shift = u_vectors
+        // (iii) L * shift = u_vectors.  shift = L^-1 u carries a norm-wise error eps cond |shift|, so the residual
+        // is bounded by eps cond^2 max|u| (norm-wise, not per component: a component of u may be exactly 0)
+        let u_scale = meta.u_vectors.iter().flatten().fold(0.0f64, |a, b| a.max(b.abs()));
         for li in 0..l { for c in 0..d {
             let (mut sum, mut abs) = (0.0, 0.0);
             for lp in 0..l { let t = lspec[li][lp] * meta.shift[lp][c]; sum += t; abs += t.abs(); }
-            if !((sum - meta.u_vectors[li][c]).abs() <= 1e-13 * cond.max(1.0) * abs.max(1e-300) + 1e-300) {
-                cx.viol("C10", format!("L*shift [{}][{}] = {} differs from u = {}", li, c, sum, meta.u_vectors[li][c]), ri, x, json!({"cond": cond}));
+            let tol3 = 1e-14 * (cond + cond * cond) * u_scale + 8.0 * f64::EPSILON * abs + 1e-300;
+            if !((sum - meta.u_vectors[li][c]).abs() <= tol3) {
+                cx.viol("C10", format!("L*shift [{}][{}] = {} differs from u = {}", li, c, sum, meta.u_vectors[li][c]), ri, x, json!({"cond": cond, "tol": tol3}));
             }
         } }
         // (iv) Qt^T Qt = L, Qt upper triangular
